@@ -147,21 +147,25 @@ EXTRA = {
            "; the columns of B are the once-lagged elements that fall off the state vector; write-once caches depend on the sparsity pattern, not on values",
     "C01": "forward-expansion memo lists are used with one set of matrices each and are reset with them; the lagged state is read one period before the state "
            "(evaluation-point alignment); simulators take the end of their window from the frame's simulation end"
-           "; the deviation solution never writes into arrays it shares with the stored solution; R_k = -X J^(k-1) Ru whatever the memo already holds; square and triangular forms are not mixed; per-variant functions hand their variant to variant-defaulting wrappers",
+           "; the deviation solution never writes into arrays it shares with the stored solution; R_k = -X J^(k-1) Ru whatever the memo already holds; square and triangular forms are not mixed; per-variant functions hand their variant to variant-defaulting wrappers"
+           "; every alternative of a conditional simulation-end callback simulates to the base end; the state vector holds every transition variable a measurement equation reads",
     "C03": "the smoother's backward recursion is contiguous (threshold guard, not a per-period quantity); per-period info series are stamped with the filtered periods; "
            "every pass iterates all filtered periods; the deviation solution zeroes every additive constant"
-           "; every present output store is rescaled / extended whichever others are absent; input data win over the model's values exactly as each <group>_from_data flag says; one basis per recursion",
+           "; every present output store is rescaled / extended whichever others are absent; input data win over the model's values exactly as each <group>_from_data flag says; one basis per recursion"
+           "; the prior mean of the state solves the stable block only and sits behind the unit-root zeros",
     "C04": "the !all-but flag is recorded unconditionally; log status = listed XOR all-but (finite evaluation)"
            "; the three recognisers of a time shift accept the same blank-padded integers (language inclusion); no greedy span over its own closer in the front-end patterns",
     "C05": "a block is skipped only when it has no unknowns at all (truth table); prefetch accumulation order and order-preserving split of matched ids"
-           "; flag keywords override the model's flags in both directions (False included); per-variant functions hand their variant to variant-defaulting wrappers",
+           "; flag keywords override the model's flags in both directions (False included); per-variant functions hand their variant to variant-defaulting wrappers"
+           "; a steady state counts as found only when the solver flag AND the residual-norm test hold; SteadyPlan.fix / unfix act on level and (non-flat) change",
     "C06": "the terminal condition logs every column it reads; frames prune later surprises against the simulation end; per-variant loops use the variant"
            "; a window's start and end are taken from one time axis; slatable routing by flag; write-once caches are pattern-based",
     "C07": "plan membership is start..end inclusive; one period window for building, filling and cropping the conditioning arrays; exogenized targets "
            "are read in the space of the state (logs); every flattening of the endogenized-anticipated incidence uses one order"
            "; the impact of anticipated shocks sums R[s-t] v[s] up to the last shock column in every frame; forward expansion terms; swallowed **kwargs of the plan's methods",
     "C08": "smoother recursion contiguous; one expansion memo per representation; the per-variant loop uses the variant; one-shot iterators are consumed once"
-           "; expansion basis matches the recursion that receives the impact; every transition variable a measurement equation reads is in the state vector",
+           "; expansion basis matches the recursion that receives the impact; every transition variable a measurement equation reads is in the state vector"
+           "; the prior mean of the state solves the stable block only and sits behind the unit-root zeros",
     "C09": "memoised methods read only construction-time attributes; daily calendar forms agree with the calendar on finite evaluation"
            "; an object rebuilt from itself carries every stored field; Span.reverse / shift / __add__ and the keyword landings by finite evaluation",
     "C10": "trim arithmetic by finite evaluation over (rows, leading, trailing); one-shot iterators are consumed once"
@@ -177,7 +181,8 @@ EXTRA = {
     "C16": "prefetch pairing order (finite evaluation of _split_ids); the failing path cannot yield a full permutation"
            "; the incidence matrix marks exactly shift-0 occurrences of left-hand variables; prefetch yields a valid ordering and sequentialize_strictly a valid order or a rejected one, on small incidence matrices",
     "C17": "exogenized points are recognised by None-ness, not truthiness; the per-variant loop uses the variant"
-           "; slatable routing of parameters and residuals by their own flags; options of plan methods are passed on",
+           "; slatable routing of parameters and residuals by their own flags; options of plan methods are passed on"
+           "; results are never updated in place with the target databox",
     "C18": "per-variant loops never hand the container to a per-variant parameter"
            "; Minnesota dummy weights in lag-major order; the exogenous impact enters the current-period block of the companion state",
     "C19": "the resolver pairs sources and targets (finite evaluation); one-shot iterators are consumed once"
